@@ -544,6 +544,8 @@ func campaign(t *testing.T) {
 		}
 	}
 	usable := make([]int32, len(names)) // 0 excluded, 1 opens with error, 2 opens
+	var intactMu sync.Mutex
+	var intactBad []string
 	{
 		var wg sync.WaitGroup
 		var next int64 = -1
@@ -566,9 +568,9 @@ func campaign(t *testing.T) {
 							report(c, f)
 						}
 						rec.Label(sub, "intact-base-file-fails", 1)
-						if env.Shard == 0 {
-							rec.Note("intact base file %s is not handled by the reader (excluded as a base)", names[i])
-						}
+						intactMu.Lock()
+						intactBad = append(intactBad, strings.TrimPrefix(names[i], "corpus/"))
+						intactMu.Unlock()
 						continue
 					}
 					if fr.resp != nil && fr.resp.OpenErr == "" {
@@ -606,7 +608,9 @@ func campaign(t *testing.T) {
 		}
 	}
 	if env.Shard == 0 {
-		rec.Note("base files: %d open intact, %d are rejected intact with an error (kept, low weight), %d excluded because the intact file already fails", nOpen, nErr, nExcl)
+		sort.Strings(intactBad)
+		rec.Note("base files: %d open intact, %d are rejected intact with an error (kept, low weight), %d excluded because the intact file already fails (each matched a known finding or was reported): %s",
+			nOpen, nErr, nExcl, strings.Join(intactBad, " "))
 	}
 	if len(g.pick) == 0 {
 		t.Fatalf("no usable base file")
